@@ -169,3 +169,110 @@ def gen(shard, rng, tier):
             c["x"] = {"_from": x["_from"], "cls": x["cls"]}
             c["j"] = "any"
             yield c
+
+
+# ----------------------------------------------------------------------------- sanitizer / interpreter passes
+def _san_lib_requests(rng, n):
+    reqs = []
+    for _ in range(n):
+        reqs.append(_lib_hostile(rng))
+    for L in range(0, 41):
+        reqs.append({"op": "mnemonic.random", "length": L})
+        reqs.append({"op": "mnemonic.random", "length": L, "entropy": "ff" * 32})
+    for t in ("uint8[][3]", "bytes33", "Foo" + "[]" * 64):
+        reqs.append({"op": "eip712.member_kind", "text": t})
+    for nlen in (0, 55, 56, 255, 256, 65535, 65536, 2**32, 2**64 - 1):
+        reqs.append({"op": "rlp.len", "n": str(nlen), "offset": 0xc0})
+    return reqs
+
+
+def _miri_batches(rng, tier):
+    """(name, extra MIRIFLAGS, requests). Stacked Borrows stays on where no U256 is formatted (ethnum's hex formatter trips it:
+    a dependency's aliasing-model issue, see DESIGN.md); every other UB check is always on."""
+    sb_off = "-Zmiri-disable-stacked-borrows"
+    batches = []
+    nparse = 10 if tier == "thorough" else 2
+    for i in range(nparse):
+        reqs = []
+        for _ in range(14):
+            reqs.append({"op": "path.parse", "text": mutgen.hostile_path(rng)})
+            reqs.append({"op": "sig.parse", "text": mutgen.hostile_sig(rng)})
+        for _ in range(6):
+            reqs.append({"op": "key.new", "bytes": rand_bytes(rng, rng.choice([0, 31, 32, 33])).hex()})
+            reqs.append({"op": "path.for_index", "index": str(rng.choice([0, 2**31 - 1, 2**31, 2**32, 2**64 - 1]))})
+        batches.append(("parse-sb-%d" % i, "", reqs))
+        reqs = []
+        for _ in range(10):
+            reqs.append({"op": "tx.process", "json": mutgen.hostile_tx(rng)[:3000]})
+        for _ in range(6):
+            reqs.append({"op": "typeddata.hash", "json": mutgen.hostile_td(rng)[:4000]})
+        for t in ("uint8[][3]", "bytes33[2]", "Foo" + "[]" * 64, "uint256"):
+            reqs.append({"op": "eip712.member_kind", "text": t})
+        for nlen in (0, 55, 56, 65536, 2**64 - 1):
+            reqs.append({"op": "rlp.len", "n": str(nlen), "offset": 0x80})
+        reqs.append({"op": "rlp.uint", "value": str(rng.getrandbits(256))})
+        reqs.append({"op": "msg.hash", "bytes": rand_bytes(rng, rng.randrange(0, 200)).hex()})
+        batches.append(("json-%d" % i, sb_off, reqs))
+    nm = 2 if tier == "thorough" else 1
+    for i in range(nm):
+        reqs = [{"op": "mnemonic.parse", "phrase": mutgen.hostile_phrase(rng)[:400]} for _ in range(20)]
+        reqs += [{"op": "mnemonic.parse", "phrase": mutgen.seed_phrase(rng)} for _ in range(5)]
+        reqs += [{"op": "mnemonic.random", "length": L} for L in (0, 11, 12, 13, 15, 18, 21, 24, 25)]
+        batches.append(("mnemonic-sb-%d" % i, "", reqs))
+    if tier == "thorough":
+        for i in range(2):
+            reqs = [{"op": "hdk.derive", "seed": rand_bytes(rng, 64).hex(), "path": "m/44'/60'/0'/0/%d" % i},
+                    {"op": "key.sign", "secret": "%064x" % rng.randrange(1, secp.N), "digest": rand_bytes(rng, 32).hex()},
+                    {"op": "tx.process", "json": mutgen.seed_tx(rng), "secret": "%064x" % rng.randrange(1, secp.N)}]
+            batches.append(("crypto-%d" % i, sb_off, reqs))
+    return batches
+
+
+def extra_phases(ctx, tier, seed):
+    from ..run import core, sanitize
+    rng = core.rng_for(seed, ID, "sanitizers")
+    summaries, viol = [], []
+    evaluations = 0
+    # valgrind memcheck on the release CLI as shipped (small sample in quick, 300 runs in thorough)
+    n_vg = 300 if tier == "thorough" else 16
+    specs = []
+    while len(specs) < n_vg:
+        acc = cligen.rand_account(rng, simple=True)
+        s = mutgen.hostile_cli(rng, acc["words"])
+        if s["argv"] and s["argv"][0] == "new" and any(str(a).startswith("--vanity") for a in s["argv"]):
+            continue  # searches are too slow under valgrind; they are covered by ASan below
+        specs.append(s)
+    summ, v = sanitize.valgrind_cli(specs, ctx.bins["cli-release"], ctx.run_dir)
+    summaries.append(summ)
+    viol += v
+    evaluations += summ["executions"]
+    if tier == "thorough":
+        summ, v = sanitize.asan_lib(_san_lib_requests(rng, 6000), ctx.run_dir)
+        summaries.append(summ)
+        viol += v
+        evaluations += summ["executions"]
+        specs = []
+        for _ in range(600):
+            acc = cligen.rand_account(rng, simple=True)
+            s = mutgen.hostile_cli(rng, acc["words"])
+            if s["argv"] and s["argv"][0] == "new" and any(str(a).startswith("--vanity-prefix") for a in s["argv"]):
+                s["ent"] = {"MODE": "pass", "CAP": 12000}
+                s["timeout"] = 600
+            specs.append(s)
+        summ, v = sanitize.asan_cli(specs, ctx.run_dir, ctx.bins.get("interposer"))
+        summaries.append(summ)
+        viol += v
+        evaluations += summ["executions"]
+        summ, v, obs = sanitize.miri(_miri_batches(rng, tier), ctx.run_dir)
+        summaries.append(summ)
+        viol += v
+        evaluations += summ["executions"]
+        for name, pairs in obs.items():
+            for req, o in pairs:
+                if "panic" in o:
+                    viol.append({"sig": "C17/miri:%s/panic" % req.get("op"), "msg": "panic under Miri: %s" % str(o["panic"])[:200],
+                                 "case": {"j": "lib", "profile": "dev", "steps": [{"lib": req}], "x": {"cls": req.get("op")}}, "obs": [o]})
+    buckets = {}
+    for s in summaries:
+        buckets["sanitizer-executions:" + s["tool"].split(",")[0].split("(")[0].strip()] = s["executions"]
+    return {"sanitizers": summaries, "evaluations": evaluations, "buckets": buckets}, viol
